@@ -1000,9 +1000,14 @@ def fam_interference(rng, pid, count):
         prog.append(("append", a + 1, n))
         stream_ = make_stream(rng, n, "mixed", tf=tf, regular=(tf_regular(rng, tf) if tf and t % 3 == 2 else None))
         if hexcfg.get("lifespan") == "half":
-            # about half of what is given at construction survives the Hexital's own trim
+            # part of what is given at construction is cut by the Hexital's own trim -- but never into the members'
+            # look-back (a lifespan shorter than that is outside every property, 12.4 no. 20): as many default
+            # candles survive as the longest look-back among the members needs (all periods + 3)
             span = stream_[pre - 1][0] - stream_[0][0]
-            hexcfg = {"lifespan": timedelta(seconds=max(1, span // 2))}
+            need = max(c.p + (c.p2 or (3 if c.kind == "STOCH" else 0)) + (c.p3 or (3 if c.kind == "STOCH" else 0)) + 3
+                       for c in cfgs)
+            keep = stream_[pre - 1][0] - stream_[max(0, pre - 1 - need)][0]
+            hexcfg = {"lifespan": timedelta(seconds=max(1, span // 2, keep))}
         out.append({"id": f"{pid}/pair/{'+'.join(names)}/{t}", "fam": "interf", "obj": "hex", "inds": cfgs,
                     "names_fixed": True,
                     "hex": hexcfg, "stream": stream_,
